@@ -289,10 +289,28 @@ func EvalAll(c *core.Ctx, line string) []*core.Case {
 		default:
 			return nil
 		}
+		// headers + payload of this composition (for the "rejects only what does not fit" oracle)
+		need := -1
+		switch kind {
+		case "udp4":
+			need = 42 + len(core.UnHex(a[7]))
+		case "udp6":
+			need = 62 + len(core.UnHex(a[7]))
+		case "icmp4":
+			need = 42 + len(core.UnHex(a[7]))
+		case "icmp6":
+			need = 62 + len(core.UnHex(a[7]))
+		}
 		out := []*core.Case{{Line: sendLine, Impl: impl, Class: "compose-" + kind, Trivial: !strings.HasPrefix(impl, "ok "),
 			Oracle: func() (string, string) {
 				if !guardIntact(full, capacity) {
 					return "encoder wrote past the capacity of the buffer it was given", ""
+				}
+				if impl == "err ErrPayloadTooBig" && need >= 0 && need <= capacity && need-14 < 65536 {
+					return fmt.Sprintf("AppendPayload rejects a payload that fits: %d bytes needed, buffer capacity %d", need, capacity), ""
+				}
+				if strings.HasPrefix(impl, "ok ") && need > capacity {
+					return fmt.Sprintf("composition succeeded although %d bytes are needed and the buffer holds %d", need, capacity), ""
 				}
 				if strings.HasPrefix(impl, "ok ") && viewOracle != nil {
 					return viewOracle(), ""
